@@ -133,6 +133,39 @@ fn fnorm(a: &[f64]) -> f64 {
 
 /// pair of vectors with class: generic, near-parallel, near-antiparallel, parallel, antiparallel, perpendicular-ish
 fn fpair(d: &mut Draw, n: usize) -> (Vec<f64>, Vec<f64>, &'static str) {
+    let (mut u, mut v, cls) = fpair_dense(d, n);
+    // exactly degenerate but valid structure: the same components vanish in both vectors (the pair lies in a
+    // coordinate plane or on an axis), with either sign of zero; or each vector lies on a coordinate axis
+    if n >= 2 {
+        match d.int(0, 7) {
+            0 | 1 => {
+                let keep = d.below(n);
+                for i in 0..n {
+                    if i != keep && d.bool() {
+                        let z = if d.bool() { 0.0 } else { -0.0 };
+                        u[i] = z;
+                        v[i] = if d.bool() { z } else { -z };
+                    }
+                }
+            }
+            2 if cls == "generic" => {
+                let (iu, iv) = (d.below(n), d.below(n));
+                for i in 0..n {
+                    if i != iu {
+                        u[i] = 0.0;
+                    }
+                    if i != iv {
+                        v[i] = if d.bool() { 0.0 } else { -0.0 };
+                    }
+                }
+            }
+            _ => {}
+        }
+    }
+    (u, v, cls)
+}
+
+fn fpair_dense(d: &mut Draw, n: usize) -> (Vec<f64>, Vec<f64>, &'static str) {
     let u = fvec(d, n);
     let k = d.f64_log(1e-2, 1e2);
     match d.int(0, 8) {
